@@ -431,6 +431,22 @@ def Follows (st : State) : List Call → Prop
 
 def FollowsProtocol (calls : List Call) : Prop := Follows sz {} calls
 
+/-- executable form of `Follows` -/
+def followsB (st : State) : List Call → Bool
+  | [] => true
+  | c :: rest => pre st c && followsB (step sz st c) rest
+
+theorem follows_iff (st : State) (calls : List Call) : Follows sz st calls ↔ followsB sz st calls = true := by
+  induction calls generalizing st with
+  | nil => simp [Follows, followsB]
+  | cons c rest ih => simp [Follows, followsB, ih]
+
+instance (st : State) (calls : List Call) : Decidable (Follows sz st calls) :=
+  decidable_of_iff _ (follows_iff sz st calls).symm
+
+instance (calls : List Call) : Decidable (FollowsProtocol sz calls) :=
+  inferInstanceAs (Decidable (Follows sz {} calls))
+
 /-- what a handle owns: `(allocation id, size it must be released with, kind)` -/
 def ownsNodes : List HNode → List (Nat × Nat × Kind)
   | [] => []
@@ -460,5 +476,30 @@ def AllReleased (st : State) : Prop :=
 def documentedLeak (c : Nat × Nat × Kind) : Bool := c.2.2 == .tproxies || c.2.2 == .tconfig
 
 end
+
+/-! ### Content of header lists (for the round trip) -/
+
+/-- a header as the Rust side sees it: name and value bytes -/
+abbrev HeaderBytes := List Nat × List Nat
+
+/-- a node as the C side sees it: two `char*`, `none` = NULL -/
+abbrev CNode := Option (List Nat) × Option (List Nat)
+
+/-- `string_to_c_char`: `CString::new` refuses an interior NUL (then the helper returns NULL). -/
+def cstrOf (s : List Nat) : Option (List Nat) := if 0 ∈ s then none else some s
+
+/-- `http_headers_to_header_map`: `for header in &headers { current = Box(HeaderMap { name, value, next: current }) }`
+— each new node is put IN FRONT of the list. -/
+def toHeaderMap (hs : List HeaderBytes) : List CNode :=
+  hs.foldl (fun cur h => (cstrOf h.1, cstrOf h.2) :: cur) []
+
+/-- `header_map_to_http_headers`: walks the list; a node whose name or value is NULL (or not UTF-8 — cannot
+happen for strings that came from Rust `String`s) is skipped. -/
+def fromHeaderMap (l : List CNode) : List HeaderBytes :=
+  l.filterMap fun
+    | (some n, some v) => some (n, v)
+    | _ => none
+
+def nulFree (h : HeaderBytes) : Bool := !(0 ∈ h.1) && !(0 ∈ h.2)
 
 end Rio.Ffi
